@@ -81,6 +81,13 @@ pub struct E1Cfg {
     /// Tx copies the frame in two halves with a scheduling point in between.
     pub split_tx: bool,
     pub horizon: usize,
+    /// The Clock fires at most this many deadlines per execution (bounded observation of
+    /// `RetryBehaviour::Forever`; finite policies never need more than retries + 1 per request).
+    pub max_clock_firings: usize,
+    /// The Clock may only fire once every request has been transmitted at least as often as
+    /// deadlines fired (the "transmit task services every sendable frame before the next
+    /// deadline" assumption turned into a scheduling constraint; used to observe `Forever`).
+    pub clock_waits_for_tx: bool,
 }
 
 impl E1Cfg {
@@ -100,6 +107,8 @@ impl E1Cfg {
             retry: Retry::None,
             split_tx: true,
             horizon: 4000,
+            max_clock_firings: 10,
+            clock_waits_for_tx: false,
         }
     }
 }
@@ -406,6 +415,7 @@ struct ReqState {
     /// responses generated / delivered for this request
     responses_delivered: usize,
     deadline_fired_unserviced: bool,
+    deadline_firings: usize,
 }
 
 struct HeldView {
@@ -467,6 +477,8 @@ pub struct World {
     /// (slot, generation) of the response frame each task parsed last: a view handed out by that
     /// parse belongs to this generation of the slot.
     last_parse: Vec<Option<(usize, u64)>>,
+    /// generation of each slot when the receive side last looked at its first_pdu
+    lookup_gen: Vec<u64>,
     task_names: Vec<String>,
     tx_panics: usize,
 }
@@ -739,6 +751,15 @@ fn hold_view(task: usize, tag: u16, pdu_no: usize, pdu: vf::ReceivedPdu<'_>, exp
     w(|w| {
         let addr = view_addr(&view);
         let slot = w.slot_of_addr(addr);
+        if w.cfg.prop == Prop::C06 {
+            // C06 does not judge held views (that is C01's clause); only note staleness.
+            let generation = match (slot, w.last_parse[task]) {
+                (Some(s), Some((ps, g))) if ps == s => g,
+                (Some(s), _) => w.generation[s],
+                _ => 0,
+            };
+            return slot.map(|s| w.generation[s] > generation).unwrap_or(false);
+        }
         let generation = match (slot, w.last_parse[task]) {
             (Some(s), Some((ps, g))) if ps == s => g,
             (Some(s), _) => w.generation[s],
@@ -894,18 +915,16 @@ impl World {
         // Which request is this? Identify by the address field of the first datagram; verify the
         // whole frame against the independent encoder.
         let Some(pdus) = walk_pdus(&bytes) else {
-            self.violate(
-                "tx-frame-malformed".into(),
-                format!("transmitted frame does not parse: {:02x?}", bytes),
-            );
+            let sig = format!("tx-frame-malformed cause={}", primary_cause(&self.flags));
+            self.violate(sig, format!("transmitted frame does not parse: {:02x?}", bytes));
             return;
         };
         let tag = pdus.first().map(|p| p.3.wrapping_sub(0x1000)).unwrap_or(0);
         let idxs: Vec<u8> = pdus.iter().map(|p| p.2).collect();
-        let slot_flags: Vec<String> = self.flags.iter().cloned().collect();
+        let cause = primary_cause(&self.flags);
         let lose_first = self.cfg.lose_first;
         let Some(rs) = self.reqs.iter_mut().find(|r| r.tag == tag) else {
-            let sig = format!("tx-frame-unknown-request flags={}", slot_flags.join("+"));
+            let sig = format!("tx-frame-unknown-request cause={}", cause);
             self.violate(sig, format!("transmitted frame belongs to no request: {:02x?}", bytes));
             return;
         };
@@ -928,9 +947,9 @@ impl World {
         }
         rs.transmissions.push(bytes.clone());
         if let Some(msg) = bad {
-            let sig = format!("tx-frame-corrupt flags={}", slot_flags.join("+"));
+            let sig = format!("tx-frame-corrupt cause={}", cause);
             self.violate(sig, msg);
-            return;
+            // the segment answers whatever arrives
         }
         if nth < lose_first {
             return;
@@ -1049,6 +1068,7 @@ pub fn run_e1(cfg: &E1Cfg, ctx: &mut Ctx) -> RunResult {
                 transmissions: Vec::new(),
                 responses_delivered: 0,
                 deadline_fired_unserviced: false,
+                deadline_firings: 0,
             });
         }
     }
@@ -1082,6 +1102,7 @@ pub fn run_e1(cfg: &E1Cfg, ctx: &mut Ctx) -> RunResult {
             global_steps: 0,
             rx_errors: Vec::new(),
             last_parse: vec![None; ntasks],
+            lookup_gen: vec![0; cfg.slots],
             task_names: names.clone(),
             tx_panics: 0,
         })
@@ -1159,6 +1180,7 @@ pub fn run_e1(cfg: &E1Cfg, ctx: &mut Ctx) -> RunResult {
     let mut end = "complete";
     let mut panicked: Option<String> = None;
     let mut epilogue = false;
+    let mut clock_firings = 0usize;
 
     loop {
         if steps >= cfg.horizon {
@@ -1173,6 +1195,12 @@ pub fn run_e1(cfg: &E1Cfg, ctx: &mut Ctx) -> RunResult {
             epilogue = true;
         }
         let gsteps = w(|w| w.global_steps);
+        let tx_serviced = !cfg.clock_waits_for_tx
+            || w(|w| {
+                w.reqs
+                    .iter()
+                    .all(|r| r.outcome.is_some() || r.transmissions.len() > clock_firings)
+            });
         let enabled: Vec<usize> = (0..tasks.len())
             .filter(|&i| {
                 let t = &tasks[i];
@@ -1180,7 +1208,10 @@ pub fn run_e1(cfg: &E1Cfg, ctx: &mut Ctx) -> RunResult {
                     return false;
                 }
                 if Some(i) == clock_id {
-                    return apps_left > 0 && clock::next_deadline().is_some();
+                    return apps_left > 0
+                        && clock_firings < cfg.max_clock_firings
+                        && tx_serviced
+                        && clock::next_deadline().is_some();
                 }
                 match t.blocked {
                     None => true,
@@ -1197,19 +1228,23 @@ pub fn run_e1(cfg: &E1Cfg, ctx: &mut Ctx) -> RunResult {
             end = "deadlock";
             break;
         }
+        // The clock is an environment action: letting time pass while something else could run
+        // is an environment deviation (not a preemption); when nothing else can run it is forced.
+        let clock_enabled = clock_id.map(|c| enabled.contains(&c)).unwrap_or(false);
+        let others: Vec<usize> = enabled.iter().copied().filter(|x| Some(*x) != clock_id).collect();
         let pick = if epilogue {
             enabled[0]
+        } else if clock_enabled && (others.is_empty() || ctx.choose(Kind::Env, 2) == 1) {
+            clock_id.unwrap()
         } else {
             let (order, kind) = match current {
-                Some(c) if enabled.contains(&c) => {
+                Some(c) if others.contains(&c) => {
                     let mut o = vec![c];
-                    o.extend(enabled.iter().copied().filter(|&x| x != c));
+                    o.extend(others.iter().copied().filter(|&x| x != c));
                     (o, Kind::Preempt)
                 }
-                _ => (enabled.clone(), Kind::Free),
+                _ => (others.clone(), Kind::Free),
             };
-            // The clock is an environment action: letting time pass is a deviation, not a
-            // preemption, unless nothing else can run.
             order[ctx.choose(kind, order.len())]
         };
 
@@ -1233,6 +1268,7 @@ pub fn run_e1(cfg: &E1Cfg, ctx: &mut Ctx) -> RunResult {
         }
         let y: Option<Y> = if Some(pick) == clock_id {
             let t = clock::fire_next();
+            clock_firings += 1;
             ctx.log(|| format!("    clock: advanced to {:?} us and fired due timers", t));
             w(|w| w.on_clock_fired(&pre));
             Some(Y::Soft("clock"))
@@ -1451,7 +1487,21 @@ impl World {
                     .copied()
                     .filter(|(t, _)| *t != task)
                     .collect();
-                if !mine {
+                if !mine && what == Buf::View {
+                    // Reading a response view after its frame was released: the statement only
+                    // forbids this while another party is inside the buffer.
+                    if !others.is_empty() {
+                        let sig = format!(
+                            "view-read-while-slot-held-by-other roles={:?}",
+                            others.iter().map(|o| o.1).collect::<Vec<_>>()
+                        );
+                        let msg = format!(
+                            "{} reads its response view in slot {} while {:?} hold the buffer",
+                            self.name(task), s, others
+                        );
+                        self.violate_c02(sig, msg);
+                    }
+                } else if !mine {
                     let sig = format!(
                         "buffer-access-without-ownership what={:?} others={}",
                         what,
@@ -1476,6 +1526,11 @@ impl World {
                     self.violate_c02(sig, msg);
                 }
             }
+            Event::FirstPduLoad { slot } => {
+                if let Some(s) = self.slot_of_addr(slot) {
+                    self.lookup_gen[s] = self.generation[s];
+                }
+            }
             Event::FirstPduStore { slot } | Event::FirstPduCas { slot, .. } => {
                 // writing the lookup key of a slot the task does not hold
                 if let Some(s) = self.slot_of_addr(slot) {
@@ -1496,9 +1551,9 @@ impl World {
     }
 
     fn violate_c02(&mut self, sig: String, msg: String) {
-        // Ownership clauses are C02's (and C06's) business; C01 harnesses only use them as cause
-        // flags.
-        if matches!(self.cfg.prop, Prop::C02 | Prop::C06) {
+        // Ownership and lifecycle clauses are C02's business; C01/C06 harnesses only use them as
+        // cause flags (C06 judges consequences: corrupted frames, wrong data, lost slots, panics).
+        if self.cfg.prop == Prop::C02 {
             self.violate(sig, msg);
         }
     }
@@ -1555,7 +1610,14 @@ impl World {
                     self.slot_flags[s].clear();
                 }
                 (2, 3) => self.tokens[s].push((task, Role::Tx)),
-                (4, 5) => self.tokens[s].push((task, Role::Rx)),
+                (4, 5) => {
+                    if self.lookup_gen[s] != self.generation[s] {
+                        // the slot found by index was released and re-allocated before the claim
+                        self.slot_flags[s].insert("rx-claim-after-slot-reuse".into());
+                        self.flags.insert("rx-claim-after-slot-reuse".into());
+                    }
+                    self.tokens[s].push((task, Role::Rx))
+                }
                 (6, 7) => self.tokens[s].push((task, Role::Reader)),
                 _ => {}
             }
@@ -1594,6 +1656,9 @@ impl World {
                         match (from, to) {
                             (1, 0) => self.tokens[s]
                                 .retain(|(t, r)| !(*t == task && *r == Role::Builder)),
+                            (3, 4) | (3, 2) => {
+                                self.tokens[s].retain(|(t, r)| !(*t == task && *r == Role::Tx))
+                            }
                             (5, 6) => {
                                 self.tokens[s].retain(|(t, r)| !(*t == task && *r == Role::Rx))
                             }
@@ -1619,12 +1684,23 @@ impl World {
     fn on_clock_fired(&mut self, pre: &[SlotSnap]) {
         // C06 transmission-count precondition: Tx had serviced every sendable frame when a
         // deadline fired, i.e. the slot of every outstanding request was Sent.
+        // In trace terms: when the k-th deadline fires while a request is outstanding, its k-th
+        // transmission must already have happened (over-approximated: every firing is counted
+        // against every outstanding request, which can only exclude more executions from the
+        // count clause, never judge one wrongly).
+        let mut outstanding: Vec<u16> = Vec::new();
         for s in 0..pre.len() {
-            if matches!(pre[s].status, 2 | 3) {
+            if pre[s].status != 0 {
                 if let Some(tag) = self.owner_tag[s] {
-                    if let Some(rs) = self.req_mut(tag) {
-                        rs.deadline_fired_unserviced = true;
-                    }
+                    outstanding.push(tag);
+                }
+            }
+        }
+        for tag in outstanding {
+            if let Some(rs) = self.req_mut(tag) {
+                rs.deadline_firings += 1;
+                if rs.transmissions.len() < rs.deadline_firings {
+                    rs.deadline_fired_unserviced = true;
                 }
             }
         }
@@ -1674,8 +1750,7 @@ impl World {
             let site = p.split(':').next().unwrap_or("").to_string();
             self.violate(format!("panic {}", sanitize(p)), format!("{} ({})", p, site));
         }
-        let flags: Vec<String> = self.flags.iter().cloned().collect();
-        let flagstr = if flags.is_empty() { "none".to_string() } else { flags.join("+") };
+        let flagstr = primary_cause(&self.flags);
         let mut outcome_parts: Vec<String> = Vec::new();
         let mut nontrivial = false;
         let mut viol: Vec<(String, String)> = Vec::new();
@@ -1700,14 +1775,14 @@ impl World {
                 Prop::C01 => match &rs.outcome {
                     Some(Outcome::Ok(got)) if *got == want => {}
                     Some(Outcome::Ok(got)) => viol.push((
-                        format!("completed-with-wrong-data flags={}", flagstr),
+                        format!("completed-with-wrong-data cause={}", flagstr),
                         format!(
                             "request tag {} of app{} completed with {:02x?} but the network returned {:02x?}",
                             rs.tag, rs.task, got, want
                         ),
                     )),
                     Some(Outcome::Err(e)) => viol.push((
-                        format!("request-failed err={} flags={}", sanitize(e), flagstr),
+                        format!("request-failed err={} cause={}", sanitize(e), flagstr),
                         format!(
                             "request tag {} of app{} failed with {} although its response was handed to the receive side (rx results: {:?})",
                             rs.tag, rs.task, e, self.rx_errors
@@ -1719,7 +1794,7 @@ impl World {
                     )),
                     Some(Outcome::Abandoned) | Some(Outcome::OkStaleView(_)) => {}
                     None => viol.push((
-                        format!("request-never-completed end={} flags={}", end, flagstr),
+                        format!("request-never-completed end={} cause={}", end, flagstr),
                         format!(
                             "request tag {} of app{} never completed ({}; unfinished tasks {:?}; rx results {:?})",
                             rs.tag, rs.task, end, unfinished, self.rx_errors
@@ -1769,7 +1844,7 @@ impl World {
                 && !self.rx_errors.iter().any(|(t, _)| *t == rs.tag);
             match &rs.outcome {
                 None => viol.push((
-                    format!("request-hangs end={} flags={}", end, flagstr),
+                    format!("request-hangs end={} cause={}", end, flagstr),
                     format!(
                         "request tag {} neither completed nor timed out ({}; unfinished {:?})",
                         rs.tag, end, unfinished
@@ -1778,7 +1853,7 @@ impl World {
                 Some(Outcome::Ok(got)) => {
                     if *got != want {
                         viol.push((
-                            format!("completed-with-wrong-data flags={}", flagstr),
+                            format!("completed-with-wrong-data cause={}", flagstr),
                             format!(
                                 "request tag {} completed with {:02x?}, the network returned {:02x?}",
                                 rs.tag, got, want
@@ -1796,7 +1871,7 @@ impl World {
                     let is_timeout = e.contains("Timeout(Pdu)");
                     if never_answered && !is_timeout {
                         viol.push((
-                            format!("unanswered-request-wrong-error err={} flags={}", sanitize(e), flagstr),
+                            format!("unanswered-request-wrong-error err={} cause={}", sanitize(e), flagstr),
                             format!("request tag {} was never answered but resolved to {}", rs.tag, e),
                         ));
                     }
@@ -1805,7 +1880,7 @@ impl World {
                             if rs.transmissions.len() != 1 + r {
                                 viol.push((
                                     format!(
-                                        "transmission-count got={} want={} flags={}",
+                                        "transmission-count got={} want={} cause={}",
                                         rs.transmissions.len(),
                                         1 + r,
                                         flagstr
@@ -1824,7 +1899,7 @@ impl World {
                         // a request whose response was delivered (or is deliverable) but which
                         // fails for another reason: another request disturbed it
                         viol.push((
-                            format!("request-failed err={} flags={}", sanitize(e), flagstr),
+                            format!("request-failed err={} cause={}", sanitize(e), flagstr),
                             format!(
                                 "request tag {} failed with {} (rx results {:?})",
                                 rs.tag, e, self.rx_errors
@@ -1842,12 +1917,12 @@ impl World {
         if end == "complete" {
             for (s, snap) in final_snap.iter().enumerate() {
                 if snap.status != 0 {
-                    let f: Vec<String> = self.slot_flags[s].iter().cloned().collect();
+                    let f = primary_cause(&self.slot_flags[s]);
                     viol.push((
                         format!(
-                            "slot-lost state={} flags={}",
+                            "slot-lost state={} cause={}",
                             st_name(snap.status),
-                            if f.is_empty() { "none".into() } else { f.join("+") }
+                            f
                         ),
                         format!(
                             "after all requests ended and all handles were dropped slot {} is still {}",
@@ -1859,6 +1934,22 @@ impl World {
             }
         }
     }
+}
+
+/// The window (cause class) an execution went through, by priority. Consequences observed in an
+/// execution are attributed to the most specific window seen; `none` means no known window.
+fn primary_cause(flags: &BTreeSet<String>) -> String {
+    for c in [
+        "released-while-Tx",
+        "released-while-Rx",
+        "rx-claim-after-slot-reuse",
+        "first-pdu-cleared-by-previous-owner",
+    ] {
+        if flags.contains(c) {
+            return c.to_string();
+        }
+    }
+    "none".to_string()
 }
 
 fn sanitize(s: &str) -> String {
